@@ -18,6 +18,28 @@ from vizier._src.service import vizier_server
 from vizier._src.service import vizier_service
 
 
+def _members(obj):
+  """Attribute values of an object that may be slotted (attrs) or plain."""
+  out = []
+  if hasattr(obj, '__dict__'):
+    out += list(vars(obj).values())
+  for klass in type(obj).__mro__:
+    for name in getattr(klass, '__slots__', ()):
+      try:
+        out.append(getattr(obj, name))
+      except AttributeError:
+        pass
+  return out
+
+
+def _servicer_of(server):
+  """The VizierServicer inside a server object, whatever the attribute is called."""
+  for val in _members(server):
+    if isinstance(val, vizier_service.VizierServicer):
+      return val
+  raise AttributeError('no VizierServicer found in the server object')
+
+
 class Deployment:
 
   def __init__(self, kind, cfg, net, policy_factory=None, backend='ram'):
@@ -47,13 +69,13 @@ class Deployment:
     elif kind == 'grpc':
       self.server = vizier_server.DefaultVizierServer(
           database_url=url, early_stop_recycle_period=recycle, port=net.pick_port(), **kw)
-      self.servicer = self.server._servicer  # pylint: disable=protected-access
+      self.servicer = _servicer_of(self.server)
       self.service = self.server.stub
     elif kind == 'split':
       self.server = vizier_server.DistributedPythiaVizierServer(
           database_url=url, early_stop_recycle_period=recycle, port=net.pick_port(),
           pythia_port=net.pick_port(), **kw)
-      self.servicer = self.server._servicer  # pylint: disable=protected-access
+      self.servicer = _servicer_of(self.server)
       self.service = self.server.stub
     else:
       raise ValueError(kind)
@@ -61,12 +83,8 @@ class Deployment:
         self.servicer.default_pythia_service, self.calls)
 
   def destroy(self):
-    try:
-      if self.backend != 'ram':
-        self.servicer.datastore._connection.close()  # pylint: disable=protected-access
-        self.servicer.datastore._engine.dispose()  # pylint: disable=protected-access
-    except Exception:  # pylint: disable=broad-except
-      pass
+    if self.backend != 'ram':
+      O.close_datastore(self.servicer.datastore)
     if self._dir:
       shutil.rmtree(self._dir, ignore_errors=True)
 
